@@ -2378,7 +2378,11 @@ def sink_optional_uses_into_arms(fnode, counter):
             for v in sorted(cands or ()):
                 some_none = any(isinstance(a[-1].value, ast.Constant) and a[-1].value.value is None for a in arms)
                 all_flags = all(isinstance(a[-1].value, ast.Constant) and isinstance(a[-1].value.value, bool) for a in arms)
-                if not (some_none or all_flags):
+                def boolish(e):
+                    return (isinstance(e, ast.Constant) and isinstance(e.value, bool)) or (isinstance(e, (ast.Compare, ast.BoolOp)) or (isinstance(e, ast.UnaryOp) and isinstance(e.op, ast.Not))) \
+                        and not any(isinstance(x, (ast.Call, ast.Await, ast.NamedExpr, ast.Yield, ast.YieldFrom)) for x in ast.walk(e))
+                some_flag = any(isinstance(a[-1].value, ast.Constant) and isinstance(a[-1].value.value, bool) for a in arms) and all(boolish(a[-1].value) for a in arms)
+                if not (some_none or all_flags or some_flag):
                     continue
                 n_binds = sum(1 for x in ast.walk(fnode) if isinstance(x, ast.Name) and x.id == v and isinstance(x.ctx, (ast.Store, ast.Del)))
                 if n_binds != len(arms):
@@ -2396,8 +2400,18 @@ def sink_optional_uses_into_arms(fnode, counter):
                 # break / continue keep their meaning: the region stays inside the same loop, only nested one `if` deeper
                 if sum(len(list(ast.walk(t))) for t in region) > 400:
                     continue
+                region_stores = {x.id for t in region for x in ast.walk(t) if isinstance(x, ast.Name) and isinstance(x.ctx, (ast.Store, ast.Del))}
                 for a in arms:
-                    a.extend(copy.deepcopy(t) for t in region)
+                    bind = a[-1]
+                    moved = [copy.deepcopy(t) for t in region]
+                    if some_flag and not (some_none or all_flags) and not isinstance(bind.value, ast.Constant) \
+                            and not ({x.id for x in ast.walk(bind.value) if isinstance(x, ast.Name)} & (region_stores | {v})):
+                        # the arm's flag is a call-free test of names the moved statements do not re-bind: read it where it is used
+                        moved = [_Sub({v: bind.value}, {}).visit(t) for t in moved]
+                        a.pop()
+                    a.extend(moved)
+                    if not a:
+                        a.append(ast.Pass())
                 changed = True
                 return stmts[:i + 1] + tail[last_use + 1:]
         return stmts
